@@ -272,6 +272,18 @@ func (w *World) enabled() []Action {
 	if pendingReplies && (!cfg.DelayFaults || booting && !cfg.BootFaults) || w.scn.HoldClock(w) {
 		advW, advEvW = 0, 0
 	}
+	if cfg.MaxReplyDelay > 0 && pendingReplies {
+		// bounded delay: once some request has waited this long the clock stops until it is answered
+		w.mu.Lock()
+		for _, c := range conns {
+			for _, q := range c.queue {
+				if w.now()-q.at > int64(cfg.MaxReplyDelay) {
+					advW, advEvW = 0, 0
+				}
+			}
+		}
+		w.mu.Unlock()
+	}
 	acts = append(acts, Action{ID: "adv|event", W: advEvW, Do: func() {
 		if pendingReplies && !w.quiet {
 			w.fault("delay", "")
